@@ -137,9 +137,19 @@ def rule_name_guards(ctx: Ctx):
                 truthy = any((f"{W} := getattr" in c and o) or (presence_test(c_, o) == (W, True)) for (c, o), (c_, _) in zip(texts, guards))
                 # the value is escaped before it is interpolated
                 esc = any(isinstance(s, ast.Assign) and norm(s.targets[0]) == W and f"re.escape({W}" in norm(s.value) for s in stmts_local(loop.body)) if loop else False
-                ok = valid and truthy and esc
+                # what is_valid_name judges must be the citation's own name, not a trimmed / rewritten copy: a name that fails the rule
+                # (e.g. ends in a period) could pass once altered, and the pattern would then be built from a string the rule never saw
+                from ..core import order_index
+
+                oi = order_index(loop) if loop is not None else {}
+                vcalls = [c_ for c_, o_ in guards if o_ and isinstance(c_, ast.Call) and dotted(c_.func) == "is_valid_name"]
+                altered = [s for s in (stmts_local(loop.body) if loop is not None else []) if isinstance(s, (ast.Assign, ast.AugAssign))
+                           and W in assigned_names(s) and vcalls and oi.get(id(s), 0) < oi.get(id(vcalls[0]), 0)
+                           and not (isinstance(s, ast.Assign) and isinstance(s.value, ast.Call) and dotted(s.value.func) == "getattr" and ".metadata" in norm(s.value.args[0]))]
+                ok = valid and truthy and esc and not altered
                 ctx.ob("R-C19-4", f"find.{name}/name-guard", ok,
-                       f"a pattern alternative is built from a name only under truthiness and is_valid_name, after re.escape (guards {texts}, escaped={esc})",
+                       f"a pattern alternative is built from a name only under truthiness and is_valid_name of the name as stored in the citation, after "
+                       f"re.escape (guards {texts}, escaped={esc}, rewritten before the validity test: {[norm(a_)[:40] for a_ in altered]})",
                        node=n, mod=fm)
                 sites.append(("stmt", ok))
         ctx.ob("R-C19-4", f"find.{name}/name-pattern-site", found, "site building the name pattern located", node=fn, mod=fm, nontrivial=False)
@@ -310,6 +320,40 @@ def rule_append_order(ctx: Ctx, rule="R-C19-7"):
            f"operation ({n_app} paths)" if ok else why, node=loop, mod=fm)
 
 
+def rule_offset_maps(ctx: Ctx):
+    """R-C19-8: the two offset maps of a Document translate between *that document's* plain and markup text.  Reference citations found
+    in the markup are placed in the plain text through them, so a map built for another pair of texts (a cached one, one keyed by only
+    one of the two texts) puts references on unrelated characters."""
+    repo = ctx.repo
+    mm = repo.mod("models")
+    fn = repo.need_func("models.Document.__post_init__")
+    S = fn.args.args[0].arg
+    want = {"plain_to_markup": (f"{S}.plain_text", f"{S}.markup_text"), "markup_to_plain": (f"{S}.markup_text", f"{S}.plain_text")}
+    seen = set()
+    for st in stmts_local(fn.body):
+        if not isinstance(st, (ast.Assign, ast.AnnAssign)):
+            continue
+        tgts = st.targets if isinstance(st, ast.Assign) else [st.target]
+        flat = []
+        for t in tgts:
+            flat += list(t.elts) if isinstance(t, (ast.Tuple, ast.List)) else [t]
+        for t in flat:
+            if isinstance(t, ast.Attribute) and norm(t.value) == S and t.attr in want:
+                v = st.value
+                direct = len(flat) == 1 and isinstance(v, ast.Call) and dotted(v.func) == "SpanUpdater" and len(v.args) >= 2 \
+                    and (norm(v.args[0]), norm(v.args[1])) == want[t.attr]
+                seen.add(t.attr)
+                ctx.ob("R-C19-8", f"models.Document.__post_init__/{t.attr}", direct,
+                       f"`{S}.{t.attr}` is `SpanUpdater({want[t.attr][0]}, {want[t.attr][1]})`, built here from this document's own two texts "
+                       f"(found `{norm(v)[:60] if v is not None else None}`)", node=st, mod=mm)
+    # nobody else stores them
+    for q, m, f in repo.all_funcs():
+        for n in walk_local(f):
+            if isinstance(n, ast.Attribute) and n.attr in want and isinstance(n.ctx, ast.Store) and not (q == "models.Document.__post_init__"):
+                ctx.ob("R-C19-8", f"{q}/{n.attr}:foreign-store", False, "the offset maps are written only by Document.__post_init__", node=n, mod=m)
+    ctx.ob("R-C19-8", "models.Document.__post_init__/both-maps-built", seen == set(want), f"both maps are built (found {sorted(seen)})", node=fn, mod=mm, nontrivial=False)
+
+
 def run(ctx: Ctx):
     ctx.level = "other"
     ctx.explanation = (
@@ -331,6 +375,7 @@ def run(ctx: Ctx):
     ctx.guard(rule_name_guards, ctx)
     ctx.guard(rule_rebasing, ctx)
     ctx.guard(rule_append_order, ctx)
+    ctx.guard(rule_offset_maps, ctx)
     ctx.floor("R-C19-1", 6)
     ctx.floor("R-C19-2", 4)
     ctx.floor("R-C19-4", 3)
